@@ -63,26 +63,19 @@ CHECKS = {
         design="2/C04"),
     "C05": dict(
         text="Executable Gallina mirrors of DeepFinder::find_first and Metainfo::from_bencode, and an independent "
-             "span-splitting specification (InfoSpec.info_span) of `the exact bytes of the top-level info value`. Proved: "
-             "what is hashed is exactly find_first's answer (C05_hash_input) and the full statement is refuted by three "
-             "witness theorems, one per known-finding class (nested key found first, duplicate info key, truncated tail). "
-             "Outside those classes the property is decided by the correspondence: implementation's find_first bytes = "
-             "model = independent span, and hash = SHA-1 of those bytes, on a torrent grammar with extras.",
-        note="Partial: no general Coq theorem yet that find_first equals the span outside the known classes (needs the "
-             "re-serialisation identity lemma). SHA-1 uninterpreted. Unmodelled: scanner state after an ignored error "
-             "(unreachable for accepted documents). No axioms.",
-        technique="Coq model + refutation theorems (vm_compute witnesses) + differential correspondence with independent span oracle",
+             "span-splitting specification (InfoSpec.info_span). Proved: what is hashed is exactly find_first's answer "
+             "(C05_hash_input); find_first is characterised completely (C05_search_spec): on every document starting with a "
+             "well-formed dictionary (any depth, key order, leading-zero lengths, trailing data) it returns exactly what a "
+             "four-line specification search returns on the document's entry tree, the exact text of the value it stops at; "
+             "every strictly decodable one-dictionary document is such a tree (C05_documents_are_trees); for every accepted "
+             "well-formed torrent with no dictionary containing `4:info` before the first top-level info entry, the hashed bytes "
+             "are exactly the text of that info value (C05_exact_span). The full statement is refuted by three witness theorems, "
+             "one per known-finding class (nested key found first, duplicate info key, truncated tail). Tie: implementation's "
+             "find_first bytes = model = independent span, hash = SHA-1 of those bytes, on a torrent grammar with extras.",
+        note="Partial only by the three known findings (DeepFinder's tested depth-first behaviour, C16's leniency). SHA-1 "
+             "uninterpreted. Unmodelled: scanner state after an ignored error (unreachable for accepted documents). No axioms.",
+        technique="Coq proof (mutual induction over the document's entry tree) + refutation theorems + differential correspondence with independent span oracle",
         design="2/C05"),
-    "C07": dict(
-        text="Machine-checked Coq theorems over an executable Gallina mirror of every Serializer::data, Frame::parse and "
-             "Bitfield::{from_vec,to_vec}: layout equals the independently written BEP3 relation, parse(encode m ++ rest) "
-             "= (m, |encode m|) for all field values in range, bit i <-> bit (7 - i mod 8) of byte i/8 in both directions, "
-             "for all sizes. Constants are regenerated from the source each run; the hand-written model is tied to the "
-             "code by differential execution with the spec oracle applied to the implementation's output.",
-        note="Trusted: Coq kernel; gen_consts.py; the correspondence (generators, harness, in-Coq comparison); the model is "
-             "hand-written (modelled, not verified Rust). No axioms.",
-        technique="Coq proof (induction, finite sweeps by vm_compute) + differential correspondence model vs code",
-        design="2/C07"),
     "C06": dict(
         text="Coq theorems over executable mirrors of Frame::parse (Wire.v) and Connection::parse_frame / recv_frame (Conn.v): no "
              "buffer makes the decoder panic (C06_total); whenever it waits fewer than 4 + 65536 bytes are buffered (C06_bounded); "
